@@ -435,8 +435,37 @@ def r97(ctx, fx):
         ctx.fail_closed(rid, "fewer than 8 operations on segment/bank sequences found in the writer (%d)" % n)
 
 
+def r98(ctx, fx):
+    rid = ctx.rule("R9.8", "bytes of a bank that no segment covers hold the fill value: Bank::merge grows the image only by fresh fill bytes (`vec![fill; n]`, `resize(n, fill)`, "
+                   "`extend`) and writes into it only the bytes of the segment at its place; it never copies parts of what is already there over other parts, nor cuts it "
+                   "(`copy_within`, `drain`, `truncate`, `remove`, `retain`, `split_off`) — moved bytes leave copies of themselves behind, in the "
+                   "gap that should be fill")
+    mg = fx.fn("mos_core::io::binary_writer::Bank::merge")
+    if mg is None or not mg.d.get("hir"):
+        ctx.fail_closed(rid, "Bank::merge not found")
+        return
+    # (`insert` / `splice` of fill bytes and `resize` + `rotate_right` shift the old bytes as a whole and leave fill behind: they are ways to write the same thing)
+    MOVE = ("copy_within", "drain", "truncate", "swap_with_slice", "remove", "retain", "split_off", "clone_from_slice")
+    n = 0
+    j = 0
+    for x in lib.hwalk(mg.hir["body"]):
+        if x.get("k") == "mcall":
+            rty = str(lib.strip(x["recv"]).get("ty", "")) + str(lib.strip(x["recv"]).get("aty", ""))
+            if "Vec<u8>" in rty or "[u8]" in rty:
+                n += 1
+                ctx.inst(rid, "merge|%s#%d" % (x.get("name"), n), sample={"method": x.get("name"), "line": x.get("ln")})
+                if x.get("name") in MOVE:
+                    j += 1
+                    ctx.finding(rid, "merge|moves-image-bytes#%d" % j, "Bank::merge moves bytes of the image that is already there (`%s`): what they leave behind is not the "
+                                "fill value — the gap between a segment merged later at a lower address and the rest of the bank holds copies of the bank's first bytes"
+                                % x.get("name"), "%s:%s" % (mg.file, x.get("ln")))
+    if n < 2:
+        ctx.fail_closed(rid, "fewer than 2 operations on the bank image found in Bank::merge (%d)" % n)
+
+
 def run(ctx):
     fx = ctx.facts
+    r98(ctx, fx)
     et = fx.fn(CC + "::emit_token")
     if et is None:
         ctx.fail_closed("R9", "emit_token not found")
